@@ -250,6 +250,9 @@ pub const ITEMS: &[Item] = &[
     CanonicalBody { ty: "Version", tr: "Deserialize<'de>", name: "deserialize", body: "{lets=String::deserialize(d)?;s.parse().map_err(serde::de::Error::custom)}" },
     CanonicalBody { ty: "Range", tr: "Serialize", name: "serialize", body: "{s.collect_str(self)}" },
     CanonicalBody { ty: "Range", tr: "Deserialize<'de>", name: "deserialize", body: "{lets=String::deserialize(d)?;s.parse().map_err(serde::de::Error::custom)}" },
+    // ---- error positions
+    CanonicalBody { ty: "SemverError", tr: "", name: "offset", body: "{self.span.offset()}" },
+    Method { ty: "SemverError", tr: "", name: "location" },
     // ---- the public entry points
     Method { ty: "Version", tr: "", name: "parse" },
     Method { ty: "Range", tr: "", name: "parse" },
@@ -264,7 +267,7 @@ pub const BY_CORRESPONDENCE_ONLY: &[&str] = &[
     // error plumbing and diagnostics
     "SemverError::code", "SemverError::severity", "SemverError::help", "SemverError::url",
     "SemverError::source_code", "SemverError::labels", "SemverError::input", "SemverError::span",
-    "SemverError::offset", "SemverError::kind", "SemverError::location",
+    "SemverError::kind",
     // entry points that wrap the winnow parsers, serde, FromStr
     "Version::partial_cmp",
     "Bound::partial_cmp",
